@@ -59,7 +59,37 @@ pub struct Obs {
     pub outcomes: BTreeSet<String>,
 }
 
+/// Writes that fail part-way: thread-local scratch buffers must not leak into the next component.
+fn failing_writes(k: usize) {
+    let _ = catch_unwind(AssertUnwindSafe(|| {
+        // a frame into a sink that rejects an operation (its header goes through an internal sink and succeeds) ...
+        if let Ok(h) = FrameHeader::new(64, ChannelAssignment::Independent(1), 16, 44100, FrameOffset::Frame(5)) {
+            let s: Vec<i32> = (0..64).map(|i| (i * 37 % 200) as i32 - 100).collect();
+            if let Ok(v) = Verbatim::new(&s, 16) {
+                if let Ok(f) = Frame::new(h, vec![SubFrame::from(v)].into_iter()) {
+                    let mut u = crate::sink::UserSink::new(Some(k % 5), false);
+                    let _ = f.write(&mut u);
+                }
+            }
+        }
+        // ... and LAST (so that nothing repairs the state afterwards) header writes that fail: into a sink that
+        // rejects its first or second operation, or because the header cannot carry its sample number
+        if let Ok(h) = FrameHeader::new(64, ChannelAssignment::Independent(1), 16, 44100, FrameOffset::Frame(5)) {
+            let mut u = crate::sink::UserSink::new(Some(k % 2), false);
+            let _ = h.write(&mut u);
+        }
+        if k % 2 == 0 {
+            if let Ok(mut h) = FrameHeader::new(192, ChannelAssignment::Independent(2), 16, 44100, FrameOffset::Frame(3)) {
+                h.set_frame_offset(FrameOffset::StartSample(1 << 36));
+                let mut sink = flacenc::bitsink::ByteSink::new();
+                let _ = h.write(&mut sink);
+            }
+        }
+    }));
+}
+
 impl Obs {
+    /// (see `failing_writes`)
     /// `make` builds the component; `parse` re-parses `bytes` with the library's parser and returns
     /// the tree, or None on a parse error.
     #[allow(clippy::too_many_arguments)]
@@ -76,6 +106,11 @@ impl Obs {
     ) -> Option<T> {
         let id = format!("{kind}-{}", self.n);
         self.n += 1;
+        // every seventh constructed component is preceded, on this thread, by writes that fail part-way (a header
+        // that cannot carry its sample number, a header and a frame into a sink that rejects an operation)
+        if self.n % 7 == 3 {
+            failing_writes(self.n);
+        }
         let made = catch_unwind(AssertUnwindSafe(make));
         let mut ev = json!({"ev": "ctor", "id": id, "kind": kind, "args": args, "n": n, "bps": bps, "ord": ord, "x": extra,
                             "outcome": "", "verify": "na", "write8": "na", "write64": "na", "count_hi": -1, "count_lo": -1,
@@ -109,7 +144,14 @@ impl Obs {
                         let (h, l) = limbs(cnt as u128);
                         ev["count_hi"] = json!(h);
                         ev["count_lo"] = json!(l);
-                        if cnt > (1usize << 26) {
+                        // what is actually written is counted first (cheap); only components of at most 2^16 bits by
+                        // BOTH measures are materialised and handed to TLC
+                        let counted_first = catch_unwind(AssertUnwindSafe(|| {
+                            let mut s = CountSink(0);
+                            c.write(&mut s).map(|_| s.0).unwrap_or(u128::MAX)
+                        }))
+                        .unwrap_or(u128::MAX);
+                        if cnt > (1usize << 16) || (counted_first != u128::MAX && counted_first > (1u128 << 16)) {
                             // too large to materialise: count the written bits only
                             let r = catch_unwind(AssertUnwindSafe(|| {
                                 let mut s = CountSink(0);
@@ -306,6 +348,14 @@ pub fn cmd_comp(a: &Args) {
             qq[0] = 0;
             let rr = vec![0u32; bs];
             push(0, bs, 1, &[0], &qq, &rr, "huge quotients");
+        }
+        // one quotient of 2^16 and more among many small ones (sums whose 16-bit halves carry into each other)
+        for &(spike, small, bs) in &[(65536u32, 17u32, 4096usize), (65539, 9, 8192), (131071, 33, 2048), (1 << 17, 255, 512), (70000, 65535, 64)] {
+            let mut qq = vec![small; bs];
+            qq[0] = 0;
+            qq[bs / 3] = spike;
+            let rr = vec![0u32; bs];
+            push(0, bs, 1, &[0], &qq, &rr, "one large quotient among many small ones");
         }
     }
     for (po, bs, warm, p, q, r, why) in res_args {
